@@ -26,11 +26,16 @@ func TestCheck(t *testing.T) {
 		"embedded keys over every key family the JOSE library parses (EC P-256/384/521, RSA, OKP Ed25519/X25519, oct): jwk header / did:jwk key id carrying the public key (paired control) " +
 		"and each private form of the same key, genuinely signed by that key with the fitting algorithm, protected bytes altered at seeded positions, " +
 		"re-encodings of the compact form; thorough adds seeded alterations and seeded pairs). Each is handed to the real consumer and accept/reject is observed. " +
+		"The v1 access token additionally gets tokens of foreign authorization servers (genuinely signed by did:jwk / did:key / hosted did:web keys of every key family), and its " +
+		"whole list is presented again under each key store fault mode (lookup answers with an error: backend unreachable, deadline, cancellation, not-found as error; persistent or first lookup only). " +
 		"Non-trivial: every variant other than the untouched control; distinct by (consumer, instance, class, variant name).")
 	r.Require(300, 200)
 	r.Assume("the full variant list is applied to ES256/P-256 valid tokens (what the node itself produces) plus one PS256/RSA credential; P-384/P-521/RSA/Ed25519 keyed tokens " +
 		"are driven as own-key tokens of another key holder (embedded-key classes only), not as seeds of the full list")
-	r.Assume("legacy v1 auth tokens (auth/services/oauth, did:nuts JWT bearer grant and contract VPs) are not driven")
+	r.Assume("of the legacy v1 flow (auth/services/oauth) the access token is driven (verify and introspect endpoints, valid instance signed by the node's key store " +
+		"with the claims buildAccessToken produces); the did:nuts JWT bearer grant and contract VPs are not driven")
+	r.Assume("key store faults are injected by a decorator between the node's real v1 authorization server and the node's real key store (Exists/Resolve answer with an error); " +
+		"the other consumers do not consult a key store while choosing the verification key")
 	attacker()
 
 	var consumers []*consumer
@@ -48,6 +53,26 @@ func TestCheck(t *testing.T) {
 	must(vw.vcJWTHarnessIssued(vcNode.seed.compact))
 	must(vw.vcJWTHarnessIssuedRSA(vcNode.seed.compact))
 	must(vw.vpJWT(vcNode.seed.compact))
+	{
+		hdr, _ := jwtParts(vcNode.seed.compact)
+		kid, _ := hdr["kid"].(string)
+		v1, err := vw.v1AccessToken(didHost, kid)
+		if err != nil {
+			r.Fatalf("cannot set up consumer access-token-v1: %v", err)
+		}
+		consumers = append(consumers, v1...)
+		nres := 0
+		for _, v := range vw.v1Foreign {
+			if v == "resolvable" {
+				nres++
+			}
+		}
+		r.Extra("access_token_v1_foreign_signers", vw.v1Foreign)
+		r.Count("access_token_v1_foreign_signers_resolvable_by_the_node", nres)
+		if nres < 6 {
+			r.Fatalf("only %d of the foreign signers of the v1 access token variants are resolvable by the node's key resolver: their refusal would prove nothing: %v", nres, vw.v1Foreign)
+		}
+	}
 	iw := &iamWorld{w: iamflow.NewWorld(t, iamflow.Options{CredFmt: "jwt_vc"})}
 	must(iw.requestObject())
 	must(iw.dpopValidateNode())
@@ -220,6 +245,9 @@ func TestCheck(t *testing.T) {
 				}
 			}
 		}
+		if c.keyStore != nil {
+			faultMatrix(r, c, inst, vs, dbg)
+		}
 	}
 	// kid of ANOTHER party whose DID text merely starts with the claimed issuer's DID (did:web sub-path and text-extension DIDs):
 	// credential JWTs presented to the verifier API of the node, all parties hosted by the harness
@@ -311,7 +339,7 @@ func TestCheck(t *testing.T) {
 	}
 	sort.Strings(names)
 	r.Extra("consumers", names)
-	if len(names) < 7 {
+	if len(names) < 8 {
 		r.Fatalf("only %d consumers were driven", len(names))
 	}
 }
